@@ -1,5 +1,84 @@
 import Toq.Driver.Util
-/-! Driver handlers for C19 (stub; filled in by the owner of this property). -/
+import Toq.Model.Rand
+import Toq.Core.Scalar
+/-! Driver handlers for C19: the seeding state machine on a symbolic world (predicted equality pattern of a call
+history), the Schmidt-rank construction of `random_state_vector` on Gaussian integers, the axis layout of `random_povm`. -/
+open Lean Toq.Rand
+
 namespace Toq.Driver.C19
-def handlers : List (String × Handler) := []
+
+/-- one operation `[tag, g, a, s]`: 0 seeded(g,a,s) · 1 unseeded(g,a) · 2 np.random.seed(s) · 3 np.random.rand() ·
+4 default_rng(s).random() · 5 default_rng().random() -/
+def parseOp (v : Json) : Except String (Op Nat Nat) := do
+  let l ← asNatList v
+  match l with
+  | [0, g, a, s] => return .seeded g a s
+  | [1, g, a, _] => return .unseeded g a
+  | [2, _, _, s] => return .npSeed s
+  | [3, _, _, _] => return .globalDraw
+  | [4, _, _, s] => return .rngDraw s
+  | [5, _, _, _] => return .rngDrawFresh
+  | _ => throw "op: expected [tag,g,a,s] with tag 0..5"
+
+def optNatJson : Option Nat → Json
+  | none => Json.num (-1 : Int)
+  | some n => Json.num n
+
+/-- run the history from the initial symbolic world; `classes[i]` = index of the first operation whose output must be
+bitwise equal to that of operation `i` (−1: no output).  `drop` ∈ {"none","seeded","nonglobal"} first deletes the seeded calls /
+everything but the global-generator operations. -/
+def hHistory : Handler := fun j => do
+  let opsJ ← (← j.getObjVal? "ops").getArr?
+  let ops ← opsJ.toList.mapM parseOp
+  let drop := ((j.getObjVal? "drop").toOption.bind (·.getStr?.toOption)).getD "none"
+  let ops := match drop with
+    | "seeded" => ops.filter (fun op => !op.isSeeded)
+    | "nonglobal" => ops.filter Op.isGlobal
+    | _ => ops
+  let (w, outs) := run symEnv symWorld0 ops
+  return Json.mkObj [
+    ("classes", Json.arr ((classIds outs).map optNatJson).toArray),
+    ("glob_last", optNatJson w.glob.last), ("glob_count", Json.num w.glob.count), ("entropy_used", Json.num w.ent)]
+
+def giOfArrays (re im : Array Int) : Nat → GI := fun k => ⟨re[k]!, im[k]!⟩
+
+/-- `random_state_vector` Schmidt branch before normalisation: mirror (`raw`) and closed form (`amp`, row-major `d0×d1`) -/
+def hSvRaw : Handler := fun j => do
+  let k ← getNat j "k"
+  let d0 ← getNat j "d0"
+  let d1 ← getNat j "d1"
+  let are ← getIntArray j "a_re"
+  let aim ← getIntArray j "a_im"
+  let bre ← getIntArray j "b_re"
+  let bim ← getIntArray j "b_im"
+  if k == 0 || d0 == 0 || d1 == 0 then return reject "InvalidDim"
+  if are.size != d0 * k || aim.size != d0 * k || bre.size != d1 * k || bim.size != d1 * k then
+    return reject "SizeMismatch"
+  let a := giOfArrays are aim
+  let b := giOfArrays bre bim
+  let raw := arrayOfFn (d0 * d1) (svRaw k d0 d1 a b)
+  let amp := arrayOfFn (d0 * d1) (fun r => svAmp k d0 d1 a b (r / d1) (r % d1))
+  return Json.mkObj [
+    ("raw_re", intArrayJson (raw.map (·.re))), ("raw_im", intArrayJson (raw.map (·.im))),
+    ("amp_re", intArrayJson (amp.map (·.re))), ("amp_im", intArrayJson (amp.map (·.im)))]
+
+/-- `random_povm` axis layout on an `arange`-labelled `(ni, no, d, d)` array: the returned `(d, d, ni, no)` array, C order -/
+def hPovmLayout : Handler := fun j => do
+  let d ← getNat j "dim"
+  let ni ← getNat j "num_inputs"
+  let no ← getNat j "num_outputs"
+  let P : Nat → Nat → Nat → Nat → Nat := fun x y r c => ((x * no + y) * d + r) * d + c
+  let out := Id.run do
+    let mut o : Array Nat := Array.mkEmpty (d * d * ni * no)
+    for r in [0:d] do
+      for c in [0:d] do
+        for x in [0:ni] do
+          for y in [0:no] do
+            o := o.push (povmLayout P r c x y)
+    return o
+  return Json.mkObj [("shape", natListJson [d, d, ni, no]), ("data", natListJson out.toList)]
+
+def handlers : List (String × Handler) :=
+  [("c19_history", hHistory), ("c19_sv_raw", hSvRaw), ("c19_povm_layout", hPovmLayout)]
+
 end Toq.Driver.C19
